@@ -173,7 +173,7 @@ pub fn run_threads(ctx: &Ctx) -> Report {
     // call is hit by all threads at once (they leave a spin gate together and start with the same
     // decrypt on the same instance)
     let light = cfg!(miri) || ctx.light();
-    let rounds = if light { ctx.budget(240, 4000, 1).min(2) } else { ctx.budget(240, 4000, 1) };
+    let rounds = if light { ctx.budget(12000, 120000, 1).min(2) } else { ctx.budget(12000, 120000, 1) };
     let in_flight = Arc::new(AtomicUsize::new(0));
     let mut overlap_hist = vec![0u64; 33];
     for r in 0..rounds {
@@ -183,6 +183,35 @@ pub fn run_threads(ctx: &Ctx) -> Report {
         // the instances must reach the threads untouched: nothing is called on them here (not even
         // the width probe, which would run whatever a type does lazily on its first call)
         let wrappers: Vec<usize> = pool.iter().cloned().filter(|i| es[*i].family == "aes" || es[*i].family == "kuznyechik").collect();
+        // one canonical route per distinct type (the RC5 grid and the generated S-box types count as three each)
+        let mut per_type: Vec<usize> = Vec::new();
+        {
+            let mut seen: Vec<String> = Vec::new();
+            let (mut rc5, mut user) = (0, 0);
+            for &i in pool.iter() {
+                let e = &es[i];
+                if !(e.route == "new" || e.route == "new+new") || seen.contains(&e.name) {
+                    continue;
+                }
+                if e.family == "rc5" {
+                    rc5 += 1;
+                    if rc5 > 3 {
+                        continue;
+                    }
+                }
+                if e.name.contains("UserSbox") {
+                    user += 1;
+                    if user > 3 {
+                        continue;
+                    }
+                }
+                seen.push(e.name.clone());
+                per_type.push(i);
+            }
+        }
+        if per_type.is_empty() {
+            per_type = pool.clone();
+        }
         while shared.len() < 3 {
             // slot 0 (the instance every thread starts on and hammers): alternately an AES / Kuznyechik
             // wrapper route and a round-robin walk over ALL routes, so that over a run every type takes
@@ -192,7 +221,7 @@ pub fn run_threads(ctx: &Ctx) -> Report {
             } else if r % 2 == 0 && !wrappers.is_empty() {
                 Some(wrappers[rng.below(wrappers.len())])
             } else {
-                Some(pool[((ctx.seed as usize).wrapping_mul(7919) + (ctx.shard as usize) * 101 + (r as usize / 2) * 13) % pool.len()])
+                Some(per_type[((ctx.seed as usize).wrapping_mul(7919) + (ctx.shard as usize) * 101 + (r as usize / 2)) % per_type.len()])
             };
             if let Some(s) = make_slot(&es, &pool, &mut rng, None, pick) {
                 let bs = s.inst.bs();
@@ -218,7 +247,7 @@ pub fn run_threads(ctx: &Ctx) -> Report {
         let shared = Arc::new(shared);
         let barrier = Arc::new(Barrier::new(nthreads));
         let gate = Arc::new(AtomicUsize::new(0));
-        let iters = if cfg!(miri) { 6 } else { 40 };
+        let iters = if cfg!(miri) { 6 } else { 60 };
         // a decrypt case of instance 0 for the common first call
         let first_case = shared[0].3.iter().position(|c| !c.0).unwrap_or(0);
         // two single-block encrypt cases of instance 0
@@ -246,7 +275,7 @@ pub fn run_threads(ctx: &Ctx) -> Report {
                     // first call: the same decrypt on instance 0 for everybody; then a "hot" phase in which all
                     // threads repeat two single-block encryptions of instance 0 (maximal contention on repeated
                     // inputs: caches / memos keyed on the input show here); then random calls on all instances
-                    let hot = it > 0 && it <= iters / 2;
+                    let hot = it > 0 && it <= 2 * iters / 3;
                     let si = if it == 0 || hot { 0 } else { lr.below(shared.len()) };
                     let (_, _, inst, cases) = &shared[si];
                     let ci = if it == 0 { first_case } else if hot { hot_cases[lr.below(2)] } else { lr.below(cases.len()) };
